@@ -427,6 +427,18 @@ func (o *ObjBSI64) copyBSI(method int, f fsArg, seed uint64, recv bsiH) (bsiH, s
 			if r64, ok := recv.(*ObjBSI64); ok && seed&4 != 0 && r64 != nil && r64.B != nil && !r64.Fixed {
 				n.B = r64.B
 				note = "previously used auto-sized receiver; "
+			} else if bc := o.B.BitCount(); seed&8 != 0 && bc >= 1 && bc < 58 {
+				// a receiver created for a wider range than anything the stream holds (the copy is
+				// then used within the source's range only)
+				wd := uint(bc + 1 + int(seed>>4&3))
+				n.B = roaring64.NewBSI(int64(1)<<wd-1, -(int64(1) << wd))
+				note = fmt.Sprintf("receiver NewBSI(2^%d-1, -2^%d), wider than the stream; ", wd, wd)
+				// ReadFrom replaces the receiver's planes by the stream's: what comes out is a
+				// fixed-width index (it no longer widens on its own) of the stream's width, and
+				// that is the range the history may use from here on (see DESIGN section 10)
+				// (NewBSI sizes an index by the bit lengths of its bounds: +-(2^bc - 1) is the
+				// widest symmetric range that gets exactly the stream's bc+1 planes)
+				n.Fixed, n.Min, n.Max = true, -(int64(1)<<uint(bc))+1, int64(1)<<uint(bc)-1
 			}
 		}
 		p, err := n.B.ReadFrom(rd)
